@@ -379,11 +379,92 @@ def build_model(r, cf, cp):
             if idx:
                 ctor = a["path"] + "::" + v["name"] if a["kind"] == "enum" else a["path"]
                 m.carriers[ctor] = idx
+    # what the Formatter's methods append to the output (R7)
+    m.token_fn = TOKEN
+    m.line_comment = COMMENT_KINDS[0]
+    fn_items = {f["path"]: f for f in cf.items["fns"]}
+    for p, b in m.fns.items():
+        if not p.startswith(FMT + "::"):
+            continue
+        pushes = [n for n in hirq.walk(b["body"]) if n[0] == "mcall" and n[3] == "push"
+                  and is_node(hirq.strip(n[4])) and hirq.strip(n[4])[0] == "field" and hirq.strip(n[4])[2] == "out"
+                  and hirq.local_name(hirq.strip(n[4])[1]) == "self"]
+        item = fn_items.get(p, {})
+        if any(I.strip_ty(t) == "alloc::vec::Vec<%s>" % m.doc_ty for t in item.get("inputs", [])[1:]) \
+                and I.strip_ty(item.get("output", "")) == m.doc_ty:
+            m.doc_from_children.add(p)
+        if p in m.inline_once:
+            if not pushes:
+                m.comb_kind[p] = "detach"
+            else:
+                variants = {last(hirq.def_path(x[1]) or "") for n in pushes for x in hirq.walk(n) if x[0] == "struct"}
+                # Doc::IfBreak is rendered only when the enclosing group breaks (frozen knowledge of the Doc algebra)
+                m.comb_kind[p] = "ifbreak" if "IfBreak" in variants else "wrap"
+            continue
+        if p == TOKEN or len(pushes) != 1:
+            continue
+        arg = hirq.strip(pushes[0][5][0]) if pushes[0][5] else None
+        if hirq.def_path(arg) == m.doc_ty + "::HardLine" and is_node(arg) and arg[0] == "def":
+            m.fmt_push[p] = "hard"
+        elif hirq.local_name(arg) and any(is_node(pt) and pt[0] == "pbind" and pt[1] == hirq.local_name(arg)
+                                          and I.strip_ty(ty) == m.doc_ty for (pt, ty) in b["params"]):
+            m.fmt_push[p] = "append"
+        else:
+            m.fmt_push[p] = "generic"
+    m.is_trivia_fn = "dora_parser::token::TokenKind::is_trivia"
+    m.ehl_preds = hard_line_predicates(m)
+    for a in cf.items["adts"]:
+        for v in a["variants"]:
+            idx = {i for i, f in enumerate(v["fields"]) if I.strip_ty(f["ty"]) == m.doc_ty}
+            if idx and a["path"] != m.doc_ty:
+                ctor = a["path"] + "::" + v["name"] if a["kind"] == "enum" else a["path"]
+                m.doc_carriers[ctor] = idx
     m.accessor_formatters = dict(ACCESSOR_FORMATTERS)
     m.droppable = frozenset(LAYOUT_KINDS) | frozenset(SEPARATOR_KINDS)
     m.comments = frozenset(COMMENT_KINDS)
     m.comment_preds = comment_predicates(m)
     return m
+
+
+def hard_line_predicates(m):
+    """functions `p(&Doc) -> bool` that can only answer true for a doc whose last rendered piece is Doc::HardLine:
+    a match on the parameter whose only `true` is the arm for Doc::HardLine, every other arm being false or a
+    recursive call on a sub-document bound by that arm's pattern (the last child of a Concat, the body of a
+    Nest/Group)."""
+    out = set()
+    for p, b in m.fns.items():
+        if len(b["params"]) != 1 or I.strip_ty(b["params"][0][1]) != m.doc_ty:
+            continue
+        body = hirq.strip(b["body"])
+        if not (is_node(body) and body[0] == "match" and hirq.local_name(body[1]) == b["params"][0][0][1]):
+            continue
+        ok, saw_true = True, False
+
+        def leaf_ok(e, hard):
+            e = hirq.strip(e)
+            if not is_node(e):
+                return False
+            if e[0] == "lit" and e[1] == "bool":
+                return e[2] is False or hard
+            if e[0] == "call" and hirq.def_path(e[2]) == p:
+                return True
+            if e[0] == "if" and e[3] is not None:
+                c = e[1]
+                cond_ok = is_node(c) and c[0] == "letx" and is_node(hirq.strip(c[2])) and \
+                    hirq.strip(c[2])[0] == "mcall" and hirq.strip(c[2])[3] == "last"
+                return cond_ok and leaf_ok(e[2], hard) and leaf_ok(e[3], hard)
+            return False
+        for (pat, guard, arm) in hirq.match_arms(body):
+            ps = set(hirq.pat_paths(pat))
+            hard = ps == {m.doc_ty + "::HardLine"} and guard is None
+            if hard:
+                a = hirq.strip(arm)
+                saw_true = saw_true or (is_node(a) and a[0] == "lit" and a[2] is True)
+            if not leaf_ok(arm, hard):
+                ok = False
+        if ok and saw_true:
+            out.add(p)
+    return out
 
 
 def comment_predicates(m):
@@ -564,10 +645,13 @@ class Analysis:
         for p in m.accessor_formatters:
             if p in emits:
                 emits[p] = {0}
+        self.copen, self.ckinds, self.retopen = {}, {}, set()
         for rnd in range(12):
             changed = False
+            n_copen, n_ckinds, n_ret = {}, {}, set()
             for k, (p, b, cl, ip) in self.roots.items():
                 it = Interp(m, emits)
+                it.copen, it.ckinds, it.retopen_in = self.copen, self.ckinds, self.retopen
                 try:
                     res = it.run_root(p, b, closure=cl, iter_params=ip)
                     res["error"] = None
@@ -576,6 +660,12 @@ class Analysis:
                 res["interp"] = it
                 res["param_ids"] = dict(getattr(it, "param_ids", {}))
                 self.results[k] = res
+                for ctor, fns in it.doc_carried_open.items():
+                    n_copen.setdefault(ctor, set()).update(fns)
+                for ctor, ks in it.carried_kinds.items():
+                    n_ckinds.setdefault(ctor, set()).update(ks)
+                if res.get("ret_open") and cl is None:
+                    n_ret.add(p)
                 if cl is not None or p in m.base_emit or p in m.accessor_formatters:
                     continue
                 fin = res["final"]
@@ -586,6 +676,9 @@ class Analysis:
                 if new != emits.get(p):
                     emits[p] = new
                     changed = True
+            if n_copen != self.copen or n_ckinds != self.ckinds or n_ret != self.retopen:
+                self.copen, self.ckinds, self.retopen = n_copen, n_ckinds, n_ret
+                changed = True
             if not changed:
                 break
         else:
@@ -1553,9 +1646,107 @@ def run(chk, F):
     run_r4(chk, cf, cp, m, A)
     run_r5(chk, cf, cp, m, A)
     run_r6(chk, cf, cp, m, A)
+    run_r7(chk, cf, m, A)
     chk.assumptions.append("rustc's HIR/MIR of the host configuration is the code that runs; std Option/Clone/Arc "
                            "conversions hand on the same value")
     chk.extra["not_decided"] = ("idempotence; width-dependent layout; order of emitted tokens (use declarations and "
                                 "modifiers are sorted on purpose); duplication of tokens; Doc → text rendering; flow of "
                                 "docs/tokens through containers (Vec) between the function that fills and the one that "
                                 "empties them; grammar facts quoted as frozen one-line reasons")
+
+
+# --------------------------------------------------------------------------- R7 a line comment ends its line
+def doc_consumers(m, ctor):
+    """functions (of the analysed crate) that take the Doc out of carrier `ctor` by a pattern"""
+    out = set()
+    for p, b in m.fns.items():
+        for n in hirq.walk(b["body"]):
+            if n[0] in ("pts", "pstruct") and hirq.def_path(n[1]) == ctor:
+                names = []
+                _pat_names(n, names)
+                if names:
+                    out.add(p)
+    return out
+
+
+def run_r7(chk, cf, m, A):
+    r = chk.rule("C17.R7", "after a token that can be a LINE_COMMENT is pushed (Formatter::token), the next thing pushed "
+                           "to the output on every non-panicking path is a hard line — before any other token/text/doc "
+                           "and before the function returns; a deferred doc ending in a line comment is followed by a "
+                           "hard line (or tested to end with one) by every consumer that appends it")
+    hard = [p for p, k in m.fmt_push.items() if k == "hard"]
+    if not r.anchor("Formatter method that pushes only Doc::HardLine", len(hard) == 1):
+        return r
+    if not r.anchor("Formatter::append / concat (deferred docs)", "append" in m.fmt_push.values()
+                    and "detach" in m.comb_kind.values()):
+        return r
+    sites = {}
+    events = {}
+    for key, res in sorted(A.results.items()):
+        it = res["interp"]
+        for (sfn, sid), info in it.r7_emits.items():
+            sites.setdefault((sfn, info["line"]), set()).update(info["roots"])
+        for (kind, fn, what, origins, line) in it.r7_events:
+            events.setdefault(kind, set()).add((key, fn, what, origins, line))
+    # 1. emission sites
+    bad_origin = {}
+    for (key, fn, what, origins, line) in events.get("push", set()) | events.get("return", set()):
+        for o in origins:
+            bad_origin.setdefault(o, set()).add((key, fn, what, line))
+    for (sfn, line) in sorted(sites):
+        r.instance("%s:line%d:token(LINE_COMMENT?)" % (short(sfn), line),
+                   sample={"fn": sfn, "reached_from": len(sites[(sfn, line)]), "ok": sfn not in bad_origin})
+    for o in sorted(bad_origin):
+        evs = sorted(bad_origin[o], key=lambda x: (x[1], x[2]))
+        if o.startswith("carrier:"):
+            ctor = o.split(":", 1)[1]
+            for consumer in sorted({k for (k, fn, what, line) in evs}):
+                ex = [e for e in evs if e[0] == consumer][0]
+                r.violation("%s:%s:appended-without-hard-line" % (short(consumer), "::".join(ctor.split("::")[-2:])),
+                            "%s appends a deferred doc taken from %s, which can end in a line comment, and on some "
+                            "path the next output (%s in %s) is not a hard line and the doc was not tested to end "
+                            "with one: what follows is rendered on the comment's line, i.e. commented out"
+                            % (short(consumer), ctor, ex[2], short(ex[1])), where(cf, consumer.split("::{closure")[0]))
+            continue
+        nexts = []
+        for (k, fn, what, line) in evs:
+            t = ("%s in %s" % (what, short(fn))) if what != "return" else ("the return of %s to its caller" % short(fn))
+            if t not in nexts:
+                nexts.append(t)
+        r.violation("%s:LINE_COMMENT:not-followed-by-hard-line" % short(o),
+                    "%s pushes a token that can be a LINE_COMMENT and on some non-panicking path the next thing that "
+                    "happens to the output is %s instead of a hard line (a break that depends on the *next* element "
+                    "being a NEWLINE does not count: the comment may be the last child of its node): whatever is "
+                    "rendered next lands on the comment's line and is commented out — code tokens vanish although "
+                    "every token was emitted" % (short(o), "; ".join(nexts[:3])), where(cf, o))
+    # 2. deferred docs that may end in a line comment, and their consumers
+    for ctor in sorted(A.copen):
+        cons = doc_consumers(m, ctor)
+        for c in sorted(cons):
+            r.instance("carrier:%s:consumer:%s" % ("::".join(ctor.split("::")[-2:]), short(c)),
+                       sample={"carrier": ctor, "filled_by": sorted(A.copen[ctor]), "consumer": c})
+            if c not in A.roots:
+                analysis(r, "%s:consumer-not-analysed" % short(c),
+                         "%s takes docs out of %s (which can end in a line comment) but is outside the interpreted "
+                         "functions" % (short(c), ctor), where(cf, c))
+        r.observe("docs that can end in a line comment are stored in %s by %s; consumers checked: %s"
+                  % (ctor, ", ".join(short(x) for x in sorted(A.copen[ctor])), ", ".join(short(c) for c in sorted(cons))))
+        if not cons:
+            analysis(r, "%s:no-consumer" % "::".join(ctor.split("::")[-2:]), "no consumer of %s found" % ctor)
+    for fn in sorted(A.retopen):
+        r.instance("returns-open-doc:%s" % short(fn))
+        r.observe("%s can return a deferred doc ending in a line comment; its callers carry the obligation" % short(fn))
+    # 3. fail closed
+    for (key, fn, what, origins, line) in sorted(events.get("escape", set()), key=lambda x: (x[1], x[2])):
+        analysis(r, "%s:open-deferred-doc-escapes" % short(fn),
+                 "%s (built by %s) — it leaves the tracked carriers, so its consumers cannot be checked"
+                 % (what, ", ".join(short(o) for o in origins) or "?"), where(cf, fn, line))
+    for (key, fn, what, origins, line) in sorted(events.get("untracked-token", set()), key=lambda x: x[1]):
+        analysis(r, "%s:token-of-untracked-value" % short(fn), what + ": cannot tell whether it is a line comment",
+                 where(cf, fn, line))
+    if m.ehl_preds:
+        r.observe("doc-ends-with-hard-line predicate(s): %s" % ", ".join(short(x) for x in sorted(m.ehl_preds)))
+    r.floor("Formatter::token sites that can push a LINE_COMMENT", len(sites), 7)
+    r.floor("carriers of docs that can end in a line comment", len(A.copen), 1)
+    r.floor("consumers of such carriers", sum(len(doc_consumers(m, c)) for c in A.copen), 3)
+    return r
